@@ -68,7 +68,7 @@ var c09Wraps = []string{"lazy", "with", "hooked", "incr", "named", "caller", "st
 
 var c09Acts = []string{"log", "log", "log", "log", "log", "with", "withlazy", "named", "sugar", "withopts", "level", "sync",
 	"setlevel", "getlevel", "leveltext", "replace", "global", "obslen", "obsall", "obstake", "obsfilter", "bwssync",
-	"slog", "slogwith", "sloggroup", "sloggroup", "share", "adopt", "checkonly", "core", "logbad", "logrich", "logrich"}
+	"slog", "slogwith", "sloggroup", "sloggroup", "share", "adopt", "checkonly", "core", "logbad", "logrich", "logrich", "logskip"}
 
 var c09Fes = []string{"plain", "log", "check", "sugarw", "sugarf", "sugar", "sugarln"}
 
@@ -98,6 +98,14 @@ func c09Gen(r *Rand, tier string, emit func(op any)) {
 			}
 			emit(c09Op{K: "prog", Cfg: c09Cfg{Base: base, Wrap: wrap, Bare: true}, Warm: false, Gs: gs})
 		}
+	}
+	{
+		gs := make([][]c09Act, 8)
+		for i := range gs {
+			gs[i] = []c09Act{{A: "logskip"}, {A: "log", Lvl: 2, Fe: "plain"}, {A: "log", Lvl: 2, Fe: "sugarw"}, {A: "logskip"}, {A: "log", Lvl: 2, Fe: "plain"}, {A: "log", Lvl: 0, Fe: "plain"},
+				{A: "log", Lvl: 2, Fe: "check"}, {A: "log", Lvl: 2, Fe: "plain"}}
+		}
+		emit(c09Op{K: "prog", Cfg: c09Cfg{Base: "io", Wrap: []string{"caller", "stack"}}, Warm: true, Gs: gs})
 	}
 	for _, console := range []bool{true, false} {
 		// the console encoder under overlapping entries; a locked sink shared by a buffered and a direct core
@@ -336,6 +344,10 @@ func (w *c09World) run(g int, acts []c09Act) {
 					zap.Error(errors.New("e")), zap.Strings("ss", []string{"a", "b"}), zap.Binary("b", []byte{1, 2, 3}), zap.Reflect("r", map[string]int{"k": i}),
 					zap.Durations("ds", []time.Duration{1, 2}), zap.Times("ts", []time.Time{time.Unix(1, 0)}), zap.Complex128("c", complex(1, 2)),
 					zap.Stack("st"), zap.Float64("f", 1.5), zap.Any("any", []any{1, "x"}))
+			case "logskip":
+				// a caller skip beyond the stack: the "failed to get caller" path (its pooled stack object must be released
+				// exactly once — entries logged concurrently afterwards capture callers and stacks from the same pool)
+				local.WithOptions(zap.AddCaller(), zap.AddCallerSkip(100000)).Info("m-skip")
 			case "checkonly":
 				_ = local.Check(zapcore.Level(a.Lvl), "x") // an unwritten CheckedEntry is simply dropped
 			case "with":
